@@ -43,6 +43,8 @@ func genC11(seed uint64, tier string) *Plan {
 	}
 	o := AllQ
 	o.Limit = false
+	o.LimitTotal = true
+	o.InSubTables = p.Tables
 	o.Shift = false
 	o.NoConst = true
 	o.DataSpan = span
